@@ -21,7 +21,9 @@ RULE = ("cases = (configuration, fault position k in 1..K, fault kind in {OSErro
         "half-written file, stale listing}, repetitions in {1, retry_limit-1, retry_limit}) plus "
         "sampled pairs of positions; configurations = temp-directory mode {inside the dataset, "
         "outside with {uuid}} x {no empty output partition, empty output partitions}; thorough: every "
-        "k; quick: a seeded stride sample; non-trivial = the fault actually fired; distinct = "
+        "k (the space 'single fault x position x kind x repetitions' of the four configurations, for "
+        "one frame and one task order, is then enumerated completely; pairs are sampled); quick: a seeded "
+        "stride sample; non-trivial = the fault actually fired; distinct = "
         "(configuration, k, kind, repetitions)")
 ASSUMPTIONS = ["synchronous scheduler so that position k names the same operation in every run",
                "faults of the statement's kinds only; wrong answers of existence checks are reported "
